@@ -8,8 +8,9 @@ QUANTILE_METHODS = ("linear", "lower", "higher", "midpoint", "nearest", "inverte
                     "closest_observation", "interpolated_inverted_cdf", "hazen", "weibull", "median_unbiased", "normal_unbiased")
 
 
-def mk(rng, op, kw, src, pre=None, sib=None, family=None):
-    return {"kind": "cat", "family": family or op, "op": op, "kw": kw, "src": src,
+def mk(rng, op, kw, src, pre=None, sib=None, family=None, both=False):
+    """both: run under array.optimize-graph on AND off (otherwise one of them, drawn)"""
+    return {"kind": "cat", "family": family or op, "op": op, "kw": kw, "src": src, "both": both,
             "pre": pre if pre is not None else rng.choice(PRES[:1] * 3 + PRES[1:]),
             "sib": sib if sib is not None else rng.choice(SIBS)}
 
@@ -36,25 +37,29 @@ def order_statistics(rng):
     out = []
     fam = "order-statistic"
     for fn in ("quantile", "nanquantile"):
+        # the kernel path is decided by: keepdims (dropped axis -> the kernel gets a concatenated copy), overwrite_input,
+        # whether the reduced axis is one chunk, whether it is the LAST axis and method == linear (private kernel of
+        # nanquantile): full product
         for keepdims in (False, True):
             for ow in (False, True):
-                for pat in ("one", "ragged", "first1"):
-                    shape = rshape(rng, rng.choice((1, 2, 2, 3)))
-                    axis = rng.randrange(len(shape))
-                    if rng.random() < 0.2:
-                        axis = axis - len(shape)
-                    kw = {"q": rng.choice((0.5, 0.25, 0.0, 1.0, [0.1, 0.9], [0.5], [0.0, 0.3, 1.0])), "axis": axis,
-                          "keepdims": keepdims, "overwrite_input": ow}
-                    r = rng.random()
-                    if r < 0.5:
-                        kw["method"] = rng.choice(QUANTILE_METHODS)
-                    elif r < 0.6:
-                        kw["method"] = "inverted_cdf"
-                        kw["weights"] = True
-                        kw["wdask"] = rng.random() < 0.5
-                    nan = rng.choice((0.0, 0.0, 0.2)) if fn == "quantile" else rng.choice((0.0, 0.2, 0.5))
-                    src = mk_src(rng, shape, axis_chunks(rng, shape, axis, pat), rng.choice(("f8", "f8", "f4", "i8")), nan=nan, ties=rng.random() < 0.3)
-                    out.append(mk(rng, fn, kw, [src], family=fam))
+                for onechunk in (True, False):
+                    for last in (True, False):
+                        for linear in (True, False):
+                            nd = rng.choice((1, 2, 2, 3)) if last else rng.choice((2, 2, 3))
+                            shape = rshape(rng, nd)
+                            axis = nd - 1 if last else rng.randrange(nd - 1)
+                            if rng.random() < 0.2:
+                                axis = axis - nd
+                            kw = {"q": rng.choice((0.5, 0.25, 0.0, 1.0, [0.1, 0.9], [0.5], [0.0, 0.3, 1.0])), "axis": axis,
+                                  "keepdims": keepdims, "overwrite_input": ow}
+                            if not linear:
+                                kw["method"] = rng.choice(QUANTILE_METHODS[1:])
+                            elif rng.random() < 0.3:
+                                kw["method"] = "linear"
+                            pat = "one" if onechunk else rng.choice(("ragged", "first1", "last1", "ones"))
+                            nan = rng.choice((0.0, 0.0, 0.2)) if fn == "quantile" else rng.choice((0.0, 0.2, 0.5))
+                            src = mk_src(rng, shape, axis_chunks(rng, shape, axis, pat), rng.choice(("f8", "f8", "f4", "i8")), nan=nan, ties=rng.random() < 0.3)
+                            out.append(mk(rng, fn, kw, [src], family=fam, both=ow and onechunk))
         # several axes / axis=None (one block)
         for keepdims, ow in ((False, True), (True, True), (True, False)):
             shape = rshape(rng, rng.choice((2, 3)))
@@ -64,6 +69,8 @@ def order_statistics(rng):
                 ch = axis_chunks(rng, shape, axes, rng.choice(("one", "ragged")))
             else:
                 kw = {"q": rng.choice((0.5, [0.2, 0.8])), "keepdims": keepdims, "overwrite_input": ow}
+                if rng.random() < 0.4:  # weights need the whole array in one block
+                    kw.update(method="inverted_cdf", weights=True, wdask=False)
                 ch = [[n] for n in shape]
             out.append(mk(rng, fn, kw, [mk_src(rng, shape, ch, "f8", nan=0.1 if fn == "nanquantile" else 0.0)], family=fam))
     for fn in ("median", "nanmedian"):
@@ -75,7 +82,7 @@ def order_statistics(rng):
                 if len(shape) > 1 and rng.random() < 0.25:
                     ax = sorted(rng.sample(range(len(shape)), 2))
                 src = mk_src(rng, shape, axis_chunks(rng, shape, ax, pat), rng.choice(("f8", "f4", "i8")), nan=0.25 if fn == "nanmedian" else 0.0, ties=rng.random() < 0.3)
-                out.append(mk(rng, fn, {"axis": ax, "keepdims": keepdims}, [src], family=fam))
+                out.append(mk(rng, fn, {"axis": ax, "keepdims": keepdims}, [src], family=fam, both=True))
     for fn in ("percentile", "nanpercentile"):
         for pat in ("one", "ragged", "first1", "ones"):
             n = rng.randint(3, 14)
@@ -87,10 +94,11 @@ def order_statistics(rng):
             out.append(mk(rng, fn, kw, [src], family=fam))
     for fn in ("topk", "argtopk", "topk_method"):
         for sign in (1, -1):
-            for pat in ("one", "ragged", "first1"):
+            # (chunking of the axis, k reaches the axis length or not): |k| >= block length returns the block itself
+            for pat, kbig in (("one", False), ("one", True), ("ragged", False), ("first1", rng.random() < 0.5), ("ones", True)):
                 shape = rshape(rng)
                 axis = rng.randrange(-len(shape), len(shape))
-                k = sign * rng.randint(1, shape[axis] + (1 if rng.random() < 0.2 else 0))
+                k = sign * (rng.randint(shape[axis], shape[axis] + 1) if kbig else rng.randint(1, max(1, shape[axis] - 1)))
                 kw = {"k": k, "axis": axis}
                 if rng.random() < 0.5:
                     kw["split_every"] = rng.choice((2, 3))
@@ -155,7 +163,7 @@ def reductions(rng):
         shape = rshape(rng, 2)
         kw = {"fn": fn, "axis": rng.randrange(2), "keepdims": rng.random() < 0.5}
         out.append(mk(rng, "reduction_out", kw, [mk_src(rng, shape, rand_chunks(rng, shape), "f8")], family=fam))
-    for conc in (True, False):
+    for conc in (True, True):
         shape = rshape(rng, 2)
         kw = {"fn": rng.choice(("sum", "max")), "axis": rng.choice((0, 1, None)), "keepdims": rng.random() < 0.5, "concatenate": conc, "split_every": rng.choice((None, 2))}
         out.append(mk(rng, "reduction_custom", kw, [mk_src(rng, shape, rand_chunks(rng, shape), "i8")], family=fam))
@@ -186,7 +194,7 @@ def cumulative(rng):
     for fn in ("add", "maximum", "minimum"):
         shape = rshape(rng, 2)
         axis = rng.randrange(2)
-        out.append(mk(rng, "cumreduction", {"fn": fn, "axis": axis, "method": rng.choice(("sequential", "blelloch"))},
+        out.append(mk(rng, "cumreduction", {"fn": fn, "axis": axis, "method": "sequential"},
                       [mk_src(rng, shape, axis_chunks(rng, shape, axis, rng.choice(("ragged", "first1", "ones"))), "f8")], family=fam))
     shape = rshape(rng, 2)
     out.append(mk(rng, "cumsum_method", {"axis": rng.randrange(2), "method": rng.choice(("sequential", "blelloch"))}, [mk_src(rng, shape, rand_chunks(rng, shape), "i8")], family=fam))
@@ -203,7 +211,7 @@ def moving_windows(rng, full=True):
     # chunk classes on the rolling axis: (name, needs every chunk < window)
     classes = ("first1", "last1", "ones", "ragged_small", "ragged_big", "one")
     for fn in native + others:
-        for mc in ("default", "one", "mid"):
+        for mc in (("default", "one", "mid") if fn in native else (rng.choice(("default", "one", "mid")),)):
             cls_list = classes if fn in native else (rng.choice(classes[:4]), rng.choice(classes[4:]))
             for cls in cls_list:
                 w = rng.randint(2, 6)
@@ -242,7 +250,8 @@ def moving_windows(rng, full=True):
                     kw["dtype"] = rng.choice(("f4", "f8"))
                 src = mk_src(rng, shape, ch, dt, nan=rng.choice((0.0, 0.15, 0.4)) if dt[0] == "f" else 0.0)
                 # the rolled array is usually a plain from_array (xarray): keep `pre` none half of the time
-                out.append(mk(rng, f"bn.{fn}", kw, [src], pre="none" if rng.random() < 0.5 else None, family=fam))
+                out.append(mk(rng, f"bn.{fn}", kw, [src], pre="none" if rng.random() < 0.5 else None, family=fam,
+                              both=fn in native and cls in ("first1", "last1", "ones")))
     for n_ in (None, 1, 2):
         for pat in ("ragged", rng.choice(("first1", "last1", "ones", "one"))):
             shape = rshape(rng, rng.choice((1, 2)), lo=3)
@@ -254,21 +263,25 @@ def moving_windows(rng, full=True):
         depth = rng.choice((d, {"0": d}, {"0": [d, 0]}, {"0": d, "1": 1})) if boundary not in (None, "none") or True else d
         if isinstance(depth, dict) and any(isinstance(v, list) for v in depth.values()) and boundary not in (None, "none"):
             depth = {"0": d}
-        kw = {"fn": rng.choice(("smooth", "cummax")), "depth": depth, "boundary": boundary, "trim": rng.random() < 0.8, "axis": 0,
+        kw = {"fn": rng.choice(("smooth", "cummax")), "depth": depth, "boundary": boundary, "trim": True, "axis": 0,
               "api": rng.choice(("method", "module"))}
         out.append(mk(rng, "map_overlap", kw, [mk_src(rng, shape, rand_chunks(rng, shape, ("one", "ragged", "regular", "first1", "last1")), "f8")], family=fam))
-    for red in (None, "sum", "max", "min", "mean", "nansum", "nanmax", "prod"):
-        shape = rshape(rng, rng.choice((1, 2)), lo=4)
-        axis = rng.randrange(len(shape))
-        w = rng.randint(1, shape[axis])
-        kw = {"window": w, "axis": axis, "reduce": red}
-        pat = rng.choice(("ragged", "first1", "last1", "ones", "one", "regular"))
-        out.append(mk(rng, "sliding_window_view", kw, [mk_src(rng, shape, axis_chunks(rng, shape, axis, pat), "f8", nan=0.2 if red and red.startswith("nan") else 0.0)], family=fam))
+    swv_pats = ["first1", "last1", "ones", "ragged", "one", "regular"]
+    for i, red in enumerate((None, "sum", "max", "min", "mean", "nansum", "nanmax", "nanmin", "nanmean", "prod")):
+        # native banded layer (chunks smaller than the window) and the overlap plan, tiny first/last blocks
+        for pat in (swv_pats[i % 6], swv_pats[(i + 2 + rng.randrange(3)) % 6]):
+            shape = rshape(rng, rng.choice((1, 2)), lo=4)
+            axis = rng.randrange(len(shape))
+            w = rng.randint(1, shape[axis])
+            kw = {"window": w, "axis": axis, "reduce": red}
+            lim = max(1, w - 1) if rng.random() < 0.6 else None
+            ch = [chunk_pattern(rng, n, pat, lim) if j == axis else chunk_pattern(rng, n, rng.choice(("one", "ragged", "ones"))) for j, n in enumerate(shape)]
+            out.append(mk(rng, "sliding_window_view", kw, [mk_src(rng, shape, ch, rng.choice(("f8", "f8", "i8")), nan=0.2 if red and red.startswith("nan") else 0.0)], family=fam))
     for _ in range(2):
         shape = rshape(rng, 2, lo=3)
         axis = rng.randrange(2)
         out.append(mk(rng, "diff", {"n": rng.randint(1, 2), "axis": axis}, [mk_src(rng, shape, rand_chunks(rng, shape), "i8")], family=fam))
-        out.append(mk(rng, "gradient", {"axis": axis}, [mk_src(rng, shape, axis_chunks(rng, shape, axis, rng.choice(("ragged", "regular", "one"))), "f8")], family=fam))
+        out.append(mk(rng, "gradient", {"axis": axis}, [mk_src(rng, shape, [[n] if (i == axis and rng.random() < 0.5) or n < 4 else [n - n // 2, n // 2] for i, n in enumerate(shape)], "f8")], family=fam))
     shape = [rng.randint(2, 4) * 2, rng.randint(2, 3) * 2]
     out.append(mk(rng, "coarsen", {"fn": rng.choice(("sum", "max", "mean")), "axes": {"0": 2, "1": 2}}, [mk_src(rng, shape, [[2] * (shape[0] // 2), [shape[1]]], "f8")], family=fam))
     return out
@@ -365,7 +378,7 @@ def setitem_store(rng):
             if value == "dask" and kind != "mask" and any(e[0] in ("l", "mp") for e in idx):
                 idx = [e if e[0] not in ("l", "mp") else ["s", None, None, None] for e in idx]
             kw = {"index": idx, "value": value, "via_copy": rng.random() < 0.6}
-            if kind == "mask" and value in ("nparr", "self_rev"):
+            if kind == "mask" and value in ("nparr", "self_rev", "dask"):
                 kw["value"] = value = -1
             srcs = [mk_src(rng, shape, ch, rng.choice(("f8", "i8"))), mk_src(rng, shape, ch if rng.random() < 0.5 else rand_chunks(rng, shape), "i8")]
             out.append(mk(rng, "setitem", kw, srcs, family=fam))
@@ -414,6 +427,10 @@ def contractions(rng):
             kw["optimize"] = rng.choice((True, "greedy"))
         if rng.random() < 0.3:
             kw["split_every"] = 2
+        if subs == "ii->i":
+            c = r1(n)
+            out.append(mk(rng, "einsum", kw, [src([n, n], [c, c])], family=fam))
+            continue
         out.append(mk(rng, "einsum", kw, [src(s) for s in shapes], family=fam))
     for fn, nd in (("fft", 1), ("ifft", 1), ("rfft", 1), ("irfft", 1), ("hfft", 1), ("ihfft", 1), ("fft2", 2), ("ifft2", 2), ("rfft2", 2), ("fftn", 2), ("rfftn", 2), ("fftshift", 2), ("ifftshift", 2)):
         shape = [rng.randint(2, 6), rng.randint(2, 6)]
@@ -444,7 +461,7 @@ def contractions(rng):
         shape = rshape(rng, 2)
         out.append(mk(rng, "linalg", {"fn": "norm", "ord": o, "axis": axis, "keepdims": rng.random() < 0.5}, [src(shape)], family=fam))
     sq = rng.randint(2, 5)
-    for fn in ("inv", "cholesky", "lu", "solve", "lstsq"):
+    for fn in ():  # inv / cholesky / lu / solve / lstsq need scipy (not installed here)
         c = chunk_pattern(rng, sq, rng.choice(("one", "regular")))
         srcs = [src([sq, sq], [c, c]), src([sq, 2], [c, [2]])]
         out.append(mk(rng, "linalg", {"fn": fn}, srcs, family=fam))
@@ -578,13 +595,14 @@ def manipulation(rng):
 
 
 FAMILIES = (order_statistics, moving_windows, reductions, cumulative, elementwise, setitem_store, contractions, search_like, manipulation)
-# families whose kernels take NumPy-level in-place / overwrite options or special-case tiny blocks: both optimize settings
-BOTH_OPTIMIZE = ("order-statistic", "moving-window")
 
 
 def gen_cases(rng):
-    """one stratified sweep (a few hundred cases)"""
+    """one stratified sweep (a few hundred cases): the two families whose kernels take NumPy-level overwrite options /
+    special-case tiny blocks first, the others in a drawn order (a time budget may cut the tail of a sweep)"""
     out = []
-    for f in FAMILIES:
+    rest = list(FAMILIES[2:])
+    rng.shuffle(rest)
+    for f in list(FAMILIES[:2]) + rest:
         out += f(rng)
     return out
